@@ -1,2 +1,70 @@
-/-! Line-protocol driver stub for the conc cluster (to be written by the cluster owner). -/
-def main : IO Unit := IO.println "bad-op"
+import J5V.Conc.Cache
+/-! Line-protocol driver for the conc cluster (core only): stream `conc.seq`.
+See /verif/harness/PROTOCOL-conc.md.
+
+    seq  <graph> <reqs>
+    real <names> <graph> <reqs>      (names are ignored by the model)
+
+graph  = node (';' node)*          node = kind ok ':' [field (',' field)*]
+kind   = 'o' | 'n' | 'e'           ok = '0' | '1'
+field  = num '.' wrap '.' base     wrap = '-' | [am]+       base = 's' | 'x' | 'r' idx
+reqs   = idx (',' idx)*
+-/
+open J5V.Conc.Cache
+
+def parseField (s : String) : Option Field :=
+  match s.splitOn "." with
+  | [num, wrap, base] =>
+    match num.toNat? with
+    | none => none
+    | some n =>
+      let w := if wrap == "-" then "" else wrap
+      if !(w.toList.all (fun c => c == 'a' || c == 'm')) then none
+      else if base == "s" then some ⟨n, w, .scalar⟩
+      else if base == "x" then some ⟨n, w, .bad⟩
+      else if base.startsWith "r" then (base.drop 1).toString.toNat?.map (fun r => ⟨n, w, .ref r⟩)
+      else none
+  | _ => none
+
+def parseNode (s : String) : Option Node :=
+  match s.splitOn ":" with
+  | [head, body] =>
+    match head.toList with
+    | [k, o] =>
+      let kind? : Option Kind := if k == 'o' then some .obj else if k == 'n' then some .oneof else if k == 'e' then some .enm else none
+      let ok? : Option Bool := if o == '1' then some true else if o == '0' then some false else none
+      match kind?, ok? with
+      | some kind, some ok =>
+        if body.isEmpty then some ⟨kind, ok, []⟩
+        else (body.splitOn ",").mapM parseField |>.map (fun fs => ⟨kind, ok, fs⟩)
+      | _, _ => none
+    | _ => none
+  | _ => none
+
+def parseGraph (s : String) : Option Graph := (s.splitOn ";").mapM parseNode
+
+def parseReqs (s : String) : Option (List Nat) := (s.splitOn ",").mapM (·.toNat?)
+
+def runLine (g reqs : String) : String :=
+  match parseGraph g, parseReqs reqs with
+  | some G, some rs =>
+    -- the harness only requests message nodes that exist
+    if rs.all (fun r => match G[r]? with | some nd => nd.kind != .enm | none => false) then runOp G rs else "bad-op"
+  | _, _ => "bad-op"
+
+def step (line : String) : String :=
+  match (line.trimAscii.toString.splitOn " ") with
+  | ["seq", g, reqs] => runLine g reqs
+  | ["real", _, g, reqs] => runLine g reqs
+  | _ => "bad-op"
+
+partial def loop (h : IO.FS.Stream) (out : IO.FS.Stream) : IO Unit := do
+  let line ← h.getLine
+  if line.isEmpty then return ()
+  out.putStrLn (step line)
+  loop h out
+
+def main : IO Unit := do
+  let out ← IO.getStdout
+  loop (← IO.getStdin) out
+  out.flush
